@@ -80,6 +80,49 @@ class Script:
         return {i for i, n in self.remote.items() if n["st"] == H("active") and n["eps"].get(e, 0) > 0}
 
 
+class Churn:
+    """bounded waiting under churn (C15_no_starvation_churn), evaluated on the connect/disconnect/select history of one
+    endpoint: an upstream u that stays connected is selected within (1 + f) * (M - 1) + 1 selections, where M is the
+    largest number of upstreams connected meanwhile and f counts the disconnects of an upstream that had connected
+    before u (stored in front of it). The window of u restarts whenever u is selected (or one of its duplicate
+    registrations is removed)."""
+
+    def __init__(self):
+        self.order = []
+        self.w = {}          # uid -> [selections that did not return it, disconnects in front of it, max set size]
+
+    def add(self, u):
+        self.order.append(u)
+        self.w.setdefault(u, [0, 0, len(self.order)])
+        for w in self.w.values():
+            w[2] = max(w[2], len(self.order))
+
+    def remove(self, u):
+        if u not in self.order:
+            return
+        i = self.order.index(u)
+        for v, w in self.w.items():
+            if v != u and self.order.index(v) > i:
+                w[1] += 1
+        self.order.pop(i)
+        if u in self.order:
+            self.w[u] = [0, 0, len(self.order)]
+        else:
+            self.w.pop(u, None)
+
+    def select(self, u):
+        """returns (uid, waited, bound) of an upstream that has now waited longer than the bound, or None"""
+        bad = None
+        for v, w in self.w.items():
+            if v == u:
+                w[0], w[1], w[2] = 0, 0, len(self.order)
+            else:
+                w[0] += 1
+                if w[0] > (1 + w[1]) * (w[2] - 1):
+                    bad = (v, w[0], (1 + w[1]) * (w[2] - 1))
+        return bad
+
+
 # ---------------------------------------------------------------- monitors
 def monitor_c15(case, out):
     """C15 on the implementation's observed behaviour: validity of every selection, no crash / nil, round-robin
@@ -89,6 +132,7 @@ def monitor_c15(case, out):
     sc = Script(case["local"]["id"])
     runs = {}      # endpoint -> results since the registered set last changed
     wait = {}      # (endpoint, uid) -> [selections of that endpoint that did not return uid, allowance]
+    churn = {}     # endpoint -> Churn
     for i, (op, ob) in enumerate(zip(case["ops"], out["obs"])):
         k = op["op"]
         if k in ("add", "remove"):
@@ -96,6 +140,10 @@ def monitor_c15(case, out):
             what = sc.apply(op)
             if what in ("add", "removed"):
                 runs.pop(e, None)
+            if what == "add":
+                churn.setdefault(e, Churn()).add(op["u"])
+            if what == "removed":
+                churn.setdefault(e, Churn()).remove(op["u"])
             if what == "add":
                 for (ee, u), w in wait.items():
                     if ee == e:
@@ -135,6 +183,11 @@ def monitor_c15(case, out):
             if len(r) >= n and sorted(r[-n:]) != sorted(reg):
                 return {"step": i, "why": "the last %d selections for %r (%s) are not a permutation of the %d stable upstreams %s"
                         % (n, UH(e), r[-n:], n, sorted(reg)), "sig": "fairness"}
+            # bounded waiting: sharp bound under churn
+            bad = churn.setdefault(e, Churn()).select(s["u"])
+            if bad:
+                return {"step": i, "why": "upstream %d of %r kept waiting under churn: not selected in %d selections, bound (1 + disconnects in front of it) * (largest set - 1) = %d"
+                        % (bad[0], UH(e), bad[1], bad[2]), "sig": "starvation-churn"}
             # bounded waiting
             for (ee, u), w in wait.items():
                 if ee != e:
@@ -370,11 +423,14 @@ def monitor_bal(case, out):
     if out.get("panic"):
         return {"step": len(out.get("obs") or []), "why": "balancer crashed: " + out["panic"][:300], "sig": "panic"}
     reg, run = [], []
+    ch = Churn()
     for i, (op, ob) in enumerate(zip(case["ops"], out["obs"])):
         k = op["op"]
         if k == "add":
             reg.append(op["u"]); run = []
+            ch.add(op["u"])
         elif k == "remove":
+            ch.remove(op["u"])
             if op["u"] in reg:
                 reg.remove(op["u"]); run = []
             if (ob["ret"] == 1) != (len(reg) == 0):
@@ -391,6 +447,10 @@ def monitor_bal(case, out):
             n = len(reg)
             if len(run) >= n and sorted(run[-n:]) != sorted(reg):
                 return {"step": i, "why": "the last %d results %s are not a permutation of the members %s" % (n, run[-n:], sorted(reg)), "sig": "fairness"}
+            bad = ch.select(s["u"])
+            if bad:
+                return {"step": i, "why": "member %d kept waiting under churn: not returned in %d calls of Next, bound (1 + removals in front of it) * (largest set - 1) = %d"
+                        % bad, "sig": "starvation-churn"}
         if sorted(ob["bal"][0]["ups"]) != sorted(reg):
             return {"step": i, "why": "balancer holds %s, members are %s" % (ob["bal"][0]["ups"], reg), "sig": "registered"}
     if len(out["obs"]) != len(case["ops"]):
@@ -399,6 +459,9 @@ def monitor_bal(case, out):
 
 
 BAL_CORPUS = [
+    # a flapping member (seeded change C15-2: Remove restarting the rotation serves only the first member)
+    {"id": "bal-flap", "ops": [{"op": "add", "u": 1}, {"op": "add", "u": 2}, {"op": "add", "u": 3}, {"op": "select"}] +
+                              [{"op": "add", "u": 9}, {"op": "select"}, {"op": "remove", "u": 9}] * 6},
     {"id": "bal-empty", "ops": [{"op": "select"}, {"op": "remove", "u": 1}, {"op": "add", "u": 1}, {"op": "select"}, {"op": "remove", "u": 1}, {"op": "remove", "u": 1}, {"op": "select"}]},
     {"id": "bal-cursor", "ops": [{"op": "add", "u": 1}, {"op": "add", "u": 2}, {"op": "add", "u": 3}, {"op": "select"}, {"op": "select"}, {"op": "remove", "u": 3},
                                  {"op": "select"}, {"op": "select"}, {"op": "remove", "u": 9}, {"op": "add", "u": 1}, {"op": "select"}, {"op": "select"}, {"op": "select"}]},
